@@ -1485,6 +1485,8 @@ class Glyph(object):
         if self.isComposite():
             for component in self.components:
                 glyphName, transform = component.getComponentInfo()
+                if offset:
+                    transform = transform[:4] + (transform[4] + offset, transform[5])
                 pen.addComponent(glyphName, transform)
             return
 
@@ -1584,6 +1586,8 @@ class Glyph(object):
         if self.isComposite():
             for component in self.components:
                 glyphName, transform = component.getComponentInfo()
+                if offset:
+                    transform = transform[:4] + (transform[4] + offset, transform[5])
                 pen.addComponent(glyphName, transform)
             return
 
